@@ -363,6 +363,35 @@ impl C04 {
                     }
                 }
             }
+            // (b3') the neighbouring role lives in ANOTHER account: the config's authorities (fee, collect, reward super) are all
+            // handed to the attacker; the config extension keeps its own recorded authorities - the attacker signing as
+            // extension / token-badge authority must still be refused
+            if matches!(*slot, "config_extension_authority" | "token_badge_authority") {
+                let cfg_slot = if c.idx("whirlpools_config").is_some() { "whirlpools_config" } else { "config" };
+                let own = if *slot == "config_extension_authority" { 40usize } else { 72usize };
+                if let (Some(ci), Some(ei)) = (c.idx(cfg_slot), c.idx("whirlpools_config_extension")) {
+                    if let (Some(ca), Some(ea)) = (v.pre.get(&v.ix.accounts[ci].pubkey), v.pre.get(&v.ix.accounts[ei].pubkey)) {
+                        if ca.owner == ix::wp() && ca.data.len() == 108 && ea.owner == ix::wp() && ea.data.len() >= 104 && ea.data[own..own + 32] == right.to_bytes() {
+                            let mut d = (*ca.data).clone();
+                            for o in [8usize, 40, 72] {
+                                d[o..o + 32].copy_from_slice(attacker.as_ref());
+                            }
+                            let mut f = base.clone();
+                            f.put(v.ix.accounts[ci].pubkey, Account::new(ca.lamports, d, ca.owner));
+                            let mut ixn = v.ix.clone();
+                            ixn.accounts[i].pubkey = attacker;
+                            ixn.accounts[i].is_signer = true;
+                            let r = exec(&f, ixn);
+                            cov.eval(format!("{}|{}|holds_the_configs_authorities", name, slot));
+                            self.cell(format!("{} / {} / holder of all three authorities of the config (not of the extension)", name, slot), !r.ok);
+                            if r.ok {
+                                out.push(v04("neighbouring_role_accepted", idx, format!("{}: succeeded for a key that holds the config's fee / collect / reward authorities but is not the recorded `{}` of the config extension", name, slot)));
+                                return;
+                            }
+                        }
+                    }
+                }
+            }
             // (b6) rival bundle: the stranger owns a position bundle of their own (every index marked open) with its token, signs
             // for it, and names the victim's bundled position as the one to close
             if name == "close_bundled_position" && *slot == "position_bundle_authority" {
